@@ -534,6 +534,10 @@ func (c *Client) updateLightClientIfNeededTo(ctx context.Context, height *int64)
 	)
 	if height == nil {
 		l, err = c.lc.Update(ctx, time.Now())
+		if err == nil && l == nil {
+			// nothing newer than the latest trusted light block: that is the latest one
+			l, err = c.lc.TrustedLightBlock(0)
+		}
 	} else {
 		l, err = c.lc.VerifyLightBlockAtHeight(ctx, *height, time.Now())
 	}
